@@ -141,8 +141,12 @@ CRC == ("acgtacgtac" :> <<14886, 21395>>) @@ ("acgtacgtacgtacg" :> <<35593, 8100
     @@ ("ccccccccgg" :> <<37396, 53026>>) @@ ("gattacagatt" :> <<23860, 21384>>)
     @@ ("acgacgacg" :> <<53948, 10026>>) @@ ("tgcatgcatg" :> <<5165, 5257>>)
 
-(* reads of the obimultiplex scenario: class of each read w.r.t. the sample sheet written by  *)
+(* reads of the obimultiplex scenarios: class of each read w.r.t. the sample sheet written by *)
 (* the harness ("good": primers and a declared tag pair; "notag": primers, undeclared tags;    *)
-(* "noprimer": nothing to find).  Sample assignment itself is property C12.                    *)
-MuxReads == << "good", "noprimer", "good", "notag", "noprimer", "good", "good", "notag", "good", "noprimer", "good" >>
+(* "noprimer": nothing to find).  Sample assignment itself is property C12.  The second and    *)
+(* third scenarios leave a single read, resp. no read, for the unidentified file.              *)
+MuxSets == << << "good", "noprimer", "good", "notag", "noprimer", "good", "good", "notag", "good", "noprimer", "good" >>,
+              << "good", "good", "good", "good", "notag", "good", "good" >>,
+              << "good", "good", "good", "good" >>,
+              << "noprimer", "notag" >> >>
 =============================================================================
